@@ -31,8 +31,9 @@ Definition rot (m : mnem) (e : ecls) : option (list srow) := Some [(m, [expo_ang
 Definition emit_shape (k : tkey) : option (list srow) :=
   let '(v3, f, s, e) := k in
   match f with
+  (* sxdg is a gate of qelib1.inc only: for 3.0 (stdgates.inc) the exponent -1/2 falls through to rx(pi*-0.5) *)
   | FX => if s0 s && is_spec e 4 then one Mx [0] else if s0 s && is_spec e 2 then one Msx [0]
-          else if s0 s && is_spec e (-2) then one Msxdg [0] else rot Mrx e
+          else if s0 s && is_spec e (-2) && negb v3 then one Msxdg [0] else rot Mrx e
   | FY => if is_spec e 4 && negb (match s with SMhalf => true | _ => false end) then one My [0] else rot Mry e
   | FZ => if s0 s && is_spec e 4 then one Mz [0] else if s0 s && is_spec e 2 then one Ms [0]
           else if s0 s && is_spec e (-2) then one Msdg [0] else if s0 s && is_spec e 1 then one Mt [0]
@@ -107,6 +108,11 @@ Definition orows_eqb (a b : option (list srow)) : bool :=
 (* the table covers exactly the keys, in order, and agrees with the model on each *)
 Definition table_ok (t : list (tkey * option (list srow))) : bool :=
   leqb tkey_eqb (map fst t) all_keys && forallb (fun r => orows_eqb (emit_shape (fst r)) (snd r)) t.
+
+(* ---- which mnemonics the include file of the version defines (mirrors Vendor/Qasm.v qdefined): stdgates.inc has no sxdg ---- *)
+Definition mnem_defined (v3 : bool) (m : mnem) : bool := match m with Msxdg => negb v3 | _ => true end.
+Definition rows_defined (v3 : bool) (orows : option (list srow)) : bool :=
+  match orows with Some rows => forallb (fun r => mnem_defined v3 (fst (fst r))) rows | None => true end.
 
 (* ---- the meaning of a row: half-angle units of the parameters us = [(u_i, u_i^-1)], u_i = exp(i pi p_i/2); q = exp(i pi/8) ---- *)
 Section Sem.
